@@ -9,9 +9,11 @@ package actor
 import (
 	"context"
 	"fmt"
+	"net"
 	"sort"
 	"strconv"
 	"strings"
+	"time"
 
 	"google.golang.org/protobuf/proto"
 	"google.golang.org/protobuf/types/known/durationpb"
@@ -20,9 +22,9 @@ import (
 	"github.com/tochemey/goakt/v4/internal/codec"
 	"github.com/tochemey/goakt/v4/internal/internalpb"
 	"github.com/tochemey/goakt/v4/internal/pointer"
-	"github.com/tochemey/goakt/v4/internal/types"
 	"github.com/tochemey/goakt/v4/log"
 	"github.com/tochemey/goakt/v4/passivation"
+	"github.com/tochemey/goakt/v4/remote"
 	"github.com/tochemey/goakt/v4/supervisor"
 )
 
@@ -61,8 +63,9 @@ func (*VerifC37ErrB) Error() string { return "b" }
 // VerifC37Env is one started local actor system.
 type VerifC37Env struct {
 	sys  *actorSystem
-	sys2 *actorSystem // target of the remote-spawn handler (rsp cases), started lazily
-	n    int
+	sys2  *actorSystem // remoting target of the rsp cases, started lazily on a free loop-back port
+	port2 int
+	n     int
 }
 
 func VerifC37Start() (*VerifC37Env, error) {
@@ -251,9 +254,6 @@ func (e *VerifC37Env) Roundtrip(opts []SpawnOption) (before, wire, after string,
 	return before, wire, after, nil
 }
 
-// the fixed endpoint the rsp target pretends to serve (nothing listens: the handler is called in-process)
-const verifC37Host, verifC37Port = "127.0.0.1", 9
-
 func verifC37DumpSpawnRequest(r *internalpb.RemoteSpawnRequest) string {
 	return verifC37DumpWire(&internalpb.Actor{
 		PassivationStrategy: r.GetPassivationStrategy(), Dependencies: r.GetDependencies(), EnableStash: r.GetEnableStash(),
@@ -261,26 +261,56 @@ func verifC37DumpSpawnRequest(r *internalpb.RemoteSpawnRequest) string {
 	})
 }
 
-// RemoteSpawn: the configuration an actor gets when it is spawned through the REAL server-side
-// remoteSpawnHandler, against the one it gets from a local Spawn with the same options.  The
-// request is assembled exactly as actorSystem.Spawn (remote.SpawnRequest from the spawnConfig) and
-// internal/remoteclient RemoteSpawn do (same codec calls; that client code is inline and needs a
-// socket, so it is mirrored here), then passed through protobuf and handed to the handler in-process.
-func (e *VerifC37Env) RemoteSpawn(opts []SpawnOption) (before, wire, after string, err error) {
-	ctx := context.Background()
-	if e.sys2 == nil {
-		sys, err := NewActorSystem("verif2", WithLogger(log.DiscardLogger))
+func verifC37FreePort() (int, error) {
+	l, err := net.Listen("tcp", "127.0.0.1:0")
+	if err != nil {
+		return 0, err
+	}
+	port := l.Addr().(*net.TCPAddr).Port
+	_ = l.Close()
+	return port, nil
+}
+
+// startRemoteTarget starts a second actor system with REAL remoting on a free loop-back port
+// (a few attempts, in case the probed port is taken in between).
+func (e *VerifC37Env) startRemoteTarget(ctx context.Context) error {
+	var lastErr error
+	for attempt := 0; attempt < 8; attempt++ {
+		port, err := verifC37FreePort()
 		if err != nil {
-			return "", "", "", err
+			lastErr = err
+			continue
+		}
+		sys, err := NewActorSystem("verif2", WithLogger(log.DiscardLogger), WithRemote(remote.NewConfig("127.0.0.1", port)))
+		if err != nil {
+			lastErr = err
+			continue
 		}
 		if err := sys.Start(ctx); err != nil {
-			return "", "", "", err
+			lastErr = err
+			continue
 		}
 		e.sys2 = sys.(*actorSystem)
+		e.port2 = port
 		e.sys2.registry.Register(&VerifC37Actor{})
 		e.sys2.registry.Register(&VerifC37Dep{})
-		e.sys2.remoteHostPort = verifC37Host + ":" + strconv.Itoa(verifC37Port)
-		e.sys2.remotingEnabled.Store(true)
+		return nil
+	}
+	return fmt.Errorf("cannot start the remoting target: %v", lastErr)
+}
+
+// RemoteSpawn: the configuration an actor gets through the REAL remote-spawn route — Spawn with
+// WithHostAndPort -> remote.SpawnRequest -> internal/remoteclient RemoteSpawn (request assembly and
+// codec calls) -> loop-back TCP -> remoteSpawnHandler -> Spawn on the target system — against the one
+// it gets from a local Spawn with the same options.  The wire dump is rebuilt here from the spawn
+// configuration with the same codec calls (the real request is not observable); before/after are real.
+func (e *VerifC37Env) RemoteSpawn(opts []SpawnOption) (before, wire, after string, err error) {
+	ctx, cancel := context.WithTimeout(context.Background(), 30*time.Second)
+	defer cancel()
+	if e.sys2 == nil {
+		if err := e.startRemoteTarget(ctx); err != nil {
+			return "", "", "", err
+		}
 	}
 	e.n++
 	name := "r" + strconv.Itoa(e.n)
@@ -290,14 +320,10 @@ func (e *VerifC37Env) RemoteSpawn(opts []SpawnOption) (before, wire, after strin
 	}
 	before = verifC37DumpPID(pid1)
 
-	// actorSystem.Spawn, remote branch
 	config := newSpawnConfig(opts...)
 	if err := config.Validate(); err != nil {
 		return before, "", "", err
 	}
-	kind := types.Name(&VerifC37Actor{})
-	initTimeoutReq := pointer.Deref(config.initTimeout, 0)
-	// remoteclient.RemoteSpawn
 	var dependencies []*internalpb.Dependency
 	if len(config.dependencies) > 0 {
 		dependencies, err = codec.EncodeDependencies(config.dependencies...)
@@ -310,15 +336,10 @@ func (e *VerifC37Env) RemoteSpawn(opts []SpawnOption) (before, wire, after strin
 		reentrancy = codec.EncodeReentrancy(config.reentrancy)
 	}
 	var initTimeout *durationpb.Duration
-	if initTimeoutReq > 0 {
-		initTimeout = durationpb.New(initTimeoutReq)
+	if t := pointer.Deref(config.initTimeout, 0); t > 0 {
+		initTimeout = durationpb.New(t)
 	}
-	request := &internalpb.RemoteSpawnRequest{
-		Host:                verifC37Host,
-		Port:                verifC37Port,
-		ActorName:           name,
-		ActorType:           kind,
-		Relocatable:         config.relocatable,
+	wire = verifC37DumpSpawnRequest(&internalpb.RemoteSpawnRequest{
 		PassivationStrategy: codec.EncodePassivationStrategy(config.passivationStrategy),
 		Dependencies:        dependencies,
 		EnableStash:         config.enableStash,
@@ -326,22 +347,12 @@ func (e *VerifC37Env) RemoteSpawn(opts []SpawnOption) (before, wire, after strin
 		Supervisor:          codec.EncodeSupervisor(config.supervisor),
 		Reentrancy:          reentrancy,
 		InitTimeout:         initTimeout,
-	}
-	raw, err := proto.Marshal(request)
-	if err != nil {
-		return before, "", "", err
-	}
-	request2 := new(internalpb.RemoteSpawnRequest)
-	if err := proto.Unmarshal(raw, request2); err != nil {
-		return before, "", "", err
-	}
-	wire = verifC37DumpSpawnRequest(request2)
-	resp, err := e.sys2.remoteSpawnHandler(ctx, nil, request2)
-	if err != nil {
+	})
+
+	// the real route: the target system spawns "on host:port" which is its own remoting endpoint
+	remoteOpts := append(append([]SpawnOption{}, opts...), WithHostAndPort("127.0.0.1", e.port2))
+	if _, err := e.sys2.Spawn(ctx, name, &VerifC37Actor{}, remoteOpts...); err != nil {
 		return before, wire, "", err
-	}
-	if _, ok := resp.(*internalpb.RemoteSpawnResponse); !ok {
-		return before, wire, "", fmt.Errorf("handler answered %T %v", resp, resp)
 	}
 	node, ok := e.sys2.actors.nodeByName(name)
 	if !ok || node.value() == nil {
